@@ -168,6 +168,19 @@ def build():
         raise GenError("scan_name: more than one empty-label check")
     defs.append(("name_rejects_empty_label", "bool", "true" if n_empty == 1 else "false"))
 
+    # ---- scan_owner_record: class resolution. An explicit class is the record's class
+    #      (checked against the known class only under require_valid), an omitted one is
+    #      the known class, the first explicit class becomes the known class.
+    b = fn_body(inp, "scan_owner_record")
+    one(r"let\s+class\s*=\s*match\s*\(class,\s*self\.zonefile\.last_class\)\s*\{", b, "scan_owner_record class match")
+    one(r"\(Some\(class\),\s*Some\(last_class\)\)\s*=>\s*\{\s*if\s+self\.zonefile\.require_valid\s*&&\s*class\s*!=\s*last_class\s*\{\s*"
+        r"return\s+Err\(EntryError::different_class\(\s*last_class,\s*class,?\s*\)\);?\s*\}\s*class\s*\}", b,
+        "scan_owner_record: explicit class with a known class yields the explicit class")
+    one(r"\(None,\s*Some\(last_class\)\)\s*=>\s*last_class\s*,", b, "scan_owner_record: omitted class yields the known class")
+    one(r"\(Some\(class\),\s*None\)\s*=>\s*\{\s*self\.zonefile\.last_class\s*=\s*Some\(class\);\s*class\s*\}", b,
+        "scan_owner_record: first explicit class is kept and becomes the known class")
+    one(r"\(None,\s*None\)\s*=>\s*return\s+Err\(EntryError::missing_last_class\(\)\)", b, "scan_owner_record: no class known")
+
     # ---- zonetree::parsed: the conversion stops at the reader's first error
     psrc = strip_comments(read("src/zonetree/parsed.rs"))
     pb = impl_body(psrc, r"impl\s+TryFrom<inplace::Zonefile>\s+for\s+Zonefile\s*\{")
